@@ -253,6 +253,16 @@ func WellFormed(w World, allowRepeatPositional bool) bool {
 		if p.InForm == FormBuilt && (!p.HasErr || !BuiltFindable(p.Out)) {
 			return false
 		}
+		if q := p.SharePrefixOf - 1; q >= 0 {
+			if q >= len(w.Parties) || len(w.Parties[q].Defaults) < len(p.Defaults) {
+				return false
+			}
+			for i, d := range p.Defaults {
+				if w.Parties[q].Defaults[i] != d {
+					return false
+				}
+			}
+		}
 		for _, d := range p.Defaults {
 			if d < 0 || d >= len(w.Args) {
 				return false
@@ -316,6 +326,11 @@ func WellFormed(w World, allowRepeatPositional bool) bool {
 // Compact removes options no operation or default uses and parties nothing
 // refers to, renumbering the rest.
 func Compact(w World) (World, bool) {
+	for _, p := range w.Parties {
+		if p.SharePrefixOf != 0 {
+			return w, false
+		}
+	}
 	usedArg := make([]bool, len(w.Args))
 	for _, o := range w.Ops {
 		for _, a := range o.Args {
